@@ -4,6 +4,10 @@
 mod util;
 mod c18;
 mod c08;
+mod c04;
+mod c07;
+mod c12;
+mod c17;
 
 fn main() {
     let args: Vec<String> = std::env::args().collect();
@@ -17,6 +21,11 @@ fn main() {
         let (tried, res) = match prop {
             "C18" => c18::search(seed, &budget, thorough),
             "C08" => c08::search(seed, &budget, thorough),
+            "C04" => c04::search(seed, &budget, thorough, "C04"),
+            "C05" => c04::search(seed, &budget, thorough, "C05"),
+            "C07" => c07::search(seed, &budget, thorough),
+            "C12" => c12::search(seed, &budget, thorough),
+            "C17" => c17::search(seed, &budget, thorough),
             _ => { println!("NOORACLE"); return; }
         };
         match res {
@@ -28,6 +37,10 @@ fn main() {
         let r = match prop {
             "C18" => c18::run(&input),
             "C08" => c08::run(&input),
+            "C04" | "C05" => c04::run(&input),
+            "C07" => c07::run(&input),
+            "C12" => c12::run(&input),
+            "C17" => c17::run(&input),
             _ => Err("no oracle".to_string()),
         };
         match r {
